@@ -1,5 +1,10 @@
 import Gaftools.Props.TieA5
 import Gaftools.Props.TieA
+import Gaftools.Props.TieA9
 #print axioms Gaftools.TieA.eDir_gen_eq_model
 #print axioms Gaftools.TieA.addEdge_gen
 #print axioms Gaftools.TieA.removeEdge_gen
+#print axioms Gaftools.TieA.bstep_gen
+#print axioms Gaftools.TieA.bstep_framesOk
+#print axioms Gaftools.TieA.bgo_gen
+#print axioms Gaftools.TieA.biccsFrom_gen
